@@ -291,6 +291,7 @@ class Program:
         self.adts = {}
         self.impls = []
         self.consts = {}
+        self.sconsts = {}
         self.docs = {}
         self.stolen = []
         self.collisions = set()
@@ -317,7 +318,10 @@ class Program:
                 im["crate"] = name
                 self.impls.append(im)
             for c in d["consts"]:
-                self.consts[c["path"]] = int(c["v"])
+                if "sv" in c:
+                    self.sconsts[c["path"]] = c["sv"]          # named `&str` constant -> its literal
+                else:
+                    self.consts[c["path"]] = int(c["v"])
             for c in d["docs"]:
                 self.docs[c["path"]] = c["doc"]
             self.stolen += d["stolen"]
